@@ -133,12 +133,9 @@ def inner_bound(solver, names, t0rel):
     start), event count of its initialisation, initial backtracks, un-polled backtracks after the stop)."""
     B = c19.BOUNDS[solver]
     init = c19.init_ticks(names, solver)
-    b = c19.backtracks_after(names, t0rel) if B['bt'] else 0
+    b = 0                        # every step-size loop polls the flag (repaired in /repo, c4ffee185)
     nb = sum(1 for i in range(1, max(init - 1, 1)) if names[i] == 'prox' and names[i - 1] == 'psi')
-    if solver == 'fista':
-        bound = max(init + B['after_init'], t0rel + B['after_stop']) + 2 * b
-    else:
-        bound = max(init + B['after_init'], t0rel + B['after_stop'] + 2 * b)
+    bound = max(B['first_poll'], t0rel + B['after_stop'])
     return bound, init, nb, b
 
 
@@ -195,12 +192,7 @@ def monitor(op_line, out_line, st):
         if Tj > bound:
             return (f'alm.stop() landed at event {t0} (event {t0rel} of inner solve #{j}); the inner solver made '
                     f'{Tj - t0rel} further calls (its initialisation: {init}, un-polled backtracks after the stop: '
-                    f'{b}); bound {c19.BOUNDS[solver]["after_stop"]} after the stop / '
-                    f'{c19.BOUNDS[solver]["after_init"]} after the initialisation')
-        if Tj - t0rel > c19.BOUNDS[solver]['after_stop'] + 2 * b:
-            finding = (f'alm.stop() landed at event {t0} during the initialisation of inner solve #{j}; its initial '
-                       f'step-size loop ({nb} backtracks) is not interruptible: {Tj - t0rel} further calls',
-                       c19.KEY_INIT)
+                    f'{b}); bound max({c19.BOUNDS[solver]["first_poll"]}, t0 + {c19.BOUNDS[solver]["after_stop"]})')
         bump('landed_in_inner_solve'); bump('inflight_status_' + s['status'])
         names_after = names[t0rel:]
         if sum(1 for n in names_after if n == 'cb') > 2:
@@ -218,14 +210,9 @@ def monitor(op_line, out_line, st):
                     f'the stop request was lost (ALM status {r["status"]}, {T - t0} further calls in total)')
         if len(names) > bound:
             return (f'inner solve #{k}, started with the stop flag set, made {len(names)} calls '
-                    f'(initialisation {init}; bound: +{c19.BOUNDS[solver]["after_init"]})')
+                    f'(bound: {c19.BOUNDS[solver]["first_poll"]})')
         if s['status'] == 'Busy':
             return f'inner solve #{k} returned Busy'
-        base_init = init - 2 * nb
-        if solver != 'fista' and nb > 0 and len(names) > base_init + c19.BOUNDS[solver]['after_init']:
-            finding = finding or (
-                f'alm.stop() landed at event {t0}; the next inner solve (#{k}) honours it only after its initial '
-                f'step-size loop ({nb} backtracks, not interruptible): {len(names)} calls', c19.KEY_INIT)
         bump('later_solve_status_' + s['status'])
     if later:
         bump('stop_survived_to_next_inner_solve')
